@@ -115,6 +115,65 @@ Section Creation.
   Definition or_default {K X} (keqb : K -> K -> bool) (k : K) (m : list (K * list X)) : list X :=
     match lookup keqb k m with Some l => l | None => [] end.
 
+  (* creation.rs:98-170: the six adjacency updates of add_edge (successors by
+     name / by index / traversal list, then predecessors for a directed graph or
+     the mirrored successor entries for an undirected one) *)
+  Definition link_adjacency (g2 : gstate) (e : edge) (ui vi ou ov : nat) (ex : bool)
+    : outcome (list (T * list T) * list (nat * list nat) * list (list adj) *
+               list (T * list T) * list (nat * list nat) * list (list adj)) :=
+    let s := sp g2 in
+    let su1 := upd_set teqb teqb (eu e) (ev e) (successors g2) in
+    let sm1 := upd_set Nat.eqb Nat.eqb ui vi (successors_map g2) in
+    do sv1 <- add_to_adjacency_vec s (successors_vec g2) ou ov (ew e) ex;
+    if directed s then
+      do pv <- add_to_adjacency_vec s (predecessors_vec g2) ov ou (ew e) ex;
+      Ok (su1, sm1, sv1,
+          upd_set teqb teqb (ev e) (eu e) (predecessors g2),
+          upd_set Nat.eqb Nat.eqb vi ui (predecessors_map g2), pv)
+    else
+      do sv2 <- (if Nat.eqb ui vi then Ok sv1
+                 else add_to_adjacency_vec s sv1 ov ou (ew e) ex);
+      Ok (upd_set teqb teqb (ev e) (eu e) su1,
+          upd_set Nat.eqb Nat.eqb vi ui sm1, sv2,
+          predecessors g2, predecessors_map g2, predecessors_vec g2).
+
+  (* creation.rs:172-211: storing the edge in the name-keyed and the index-keyed store *)
+  Definition store_edge (g2 : gstate) (od : edge) (ou ov : nat)
+    : list ((T * T) * list edge) * list (nat * list (nat * list edge)) :=
+    let s := sp g2 in
+    let k := (eu od, ev od) in
+    let inner := or_default Nat.eqb ou (edges_map g2) in
+    if multi s then
+      (insert peqb k (or_default peqb k (edges g2) ++ [od]) (edges g2),
+       insert Nat.eqb ou (insert Nat.eqb ov (or_default Nat.eqb ov inner ++ [od]) inner)
+              (edges_map g2))
+    else if is_ok (get_edge_by_indexes g2 ou ov) then
+      match dd s with
+      | DKeepLast =>
+        (insert peqb k [od] (edges g2),
+         insert Nat.eqb ou (insert Nat.eqb ov [od] inner) (edges_map g2))
+      | _ => (edges g2, edges_map g2)
+      end
+    else
+      (insert peqb k [od] (edges g2),
+       insert Nat.eqb ou (insert Nat.eqb ov [od] inner) (edges_map g2)).
+
+  (* the part of add_edge after the missing-node step: duplicate check and index updates *)
+  Definition add_edge_known (g2 : gstate) (e : edge) (ui vi : nat) : gstate * outcome unit :=
+    let s := sp g2 in
+    let ex := is_ok (get_edge_by_indexes g2 ui vi) in
+    if (match dd s with DErr => true | _ => false end) && negb (multi s) && ex then
+      (g2, Err DuplicateEdge)
+    else
+      let od := if directed s then e else ordered e in
+      let '(ou, ov) := if negb (directed s) && Nat.ltb vi ui then (vi, ui) else (ui, vi) in
+      match link_adjacency g2 e ui vi ou ov ex with
+      | Ok (su, sm, sv, pr, pm, pv) =>
+        let '(es, em) := store_edge g2 od ou ov in
+        (mkg (nodes_map g2) (nodes_map_rev g2) (nodes_vec g2) es em s su sm sv pr pm pv, Ok tt)
+      | Err k => (g2, Err k) | Panic x => (g2, Panic x) | OutOfFuel => (g2, OutOfFuel)
+      end.
+
   (* creation.rs:31 add_edge.  Returns the state the Rust object is left in
      together with the call's outcome (on an early return the object is left
      as it is at that point, not as it was on entry). *)
@@ -136,59 +195,7 @@ Section Creation.
         match r2 with
         | Ok g2 =>
           match lookup teqb (eu e) (nodes_map g2), lookup teqb (ev e) (nodes_map g2) with
-          | Some ui, Some vi =>
-            let ex := is_ok (get_edge_by_indexes g2 ui vi) in
-            if (match dd s with DErr => true | _ => false end) && negb (multi s) && ex then
-              (g2, Err DuplicateEdge)
-            else
-              let od := if directed s then e else ordered e in
-              let '(ou, ov) := if negb (directed s) && Nat.ltb vi ui then (vi, ui) else (ui, vi) in
-              let su1 := upd_set teqb teqb (eu e) (ev e) (successors g2) in
-              let sm1 := upd_set Nat.eqb Nat.eqb ui vi (successors_map g2) in
-              match add_to_adjacency_vec s (successors_vec g2) ou ov (ew e) ex with
-              | Ok sv1 =>
-                let r :=
-                  if directed s then
-                    match add_to_adjacency_vec s (predecessors_vec g2) ov ou (ew e) ex with
-                    | Ok pv =>
-                      Ok (su1, sm1, sv1,
-                          upd_set teqb teqb (ev e) (eu e) (predecessors g2),
-                          upd_set Nat.eqb Nat.eqb vi ui (predecessors_map g2), pv)
-                    | Err k => Err k | Panic x => Panic x | OutOfFuel => OutOfFuel
-                    end
-                  else
-                    match (if Nat.eqb ui vi then Ok sv1
-                           else add_to_adjacency_vec s sv1 ov ou (ew e) ex) with
-                    | Ok sv2 =>
-                      Ok (upd_set teqb teqb (ev e) (eu e) su1,
-                          upd_set Nat.eqb Nat.eqb vi ui sm1, sv2,
-                          predecessors g2, predecessors_map g2, predecessors_vec g2)
-                    | Err k => Err k | Panic x => Panic x | OutOfFuel => OutOfFuel
-                    end in
-                match r with
-                | Ok (su, sm, sv, pr, pm, pv) =>
-                  let k := (eu od, ev od) in
-                  let inner := or_default Nat.eqb ou (edges_map g2) in
-                  let '(es, em) :=
-                    if multi s then
-                      (insert peqb k (or_default peqb k (edges g2) ++ [od]) (edges g2),
-                       insert Nat.eqb ou (insert Nat.eqb ov (or_default Nat.eqb ov inner ++ [od]) inner)
-                              (edges_map g2))
-                    else if is_ok (get_edge_by_indexes g2 ou ov) then
-                      match dd s with
-                      | DKeepLast =>
-                        (insert peqb k [od] (edges g2),
-                         insert Nat.eqb ou (insert Nat.eqb ov [od] inner) (edges_map g2))
-                      | _ => (edges g2, edges_map g2)
-                      end
-                    else
-                      (insert peqb k [od] (edges g2),
-                       insert Nat.eqb ou (insert Nat.eqb ov [od] inner) (edges_map g2)) in
-                  (mkg (nodes_map g2) (nodes_map_rev g2) (nodes_vec g2) es em s su sm sv pr pm pv, Ok tt)
-                | Err k => (g2, Err k) | Panic x => (g2, Panic x) | OutOfFuel => (g2, OutOfFuel)
-                end
-              | Err k => (g2, Err k) | Panic x => (g2, Panic x) | OutOfFuel => (g2, OutOfFuel)
-              end
+          | Some ui, Some vi => add_edge_known g2 e ui vi
           | _, _ => (g2, Panic "creation.rs:77")
           end
         | Err k => (g1, Err k) | Panic x => (g1, Panic x) | OutOfFuel => (g1, OutOfFuel)
